@@ -121,7 +121,7 @@ Print Assumptions C06_legacy_refuted_cast_missing_arm.
    to the type of the other; ranks extracted from VariantTypeId::precedence) followed by
    `compare_operands` / `compare_values!`; [five] lists the answers of eq, gt, lt, gte, lte. *)
 From Coq Require Import String.
-From OV Require Import C06.Compare C06.Top C06.CompareProofs Gen.C06Prec.
+From OV Require Import C06.Compare C06.Top C06.CompareProofs C06.CompareFloat Gen.C06Prec.
 
 (* pins: the extracted ranks are the hand-written ranks of the specification table on the ten numeric
    types, and the body of operator.rs `convert` is the one the model was written for *)
@@ -160,13 +160,39 @@ Theorem C06_convert_int_exact : forall s t ss sb ts tb n,
 Proof. exact convert_int_int. Qed.
 Print Assumptions C06_convert_int_exact.
 
+(* An integer operand (any of the eight integer types, any value) against a finite Double / Float
+   operand, in either order: the integer is converted with round-to-nearest, so the order of the two
+   NUMBERS is never inverted by the comparison; it can only collapse to "equal" (and it is "equal"
+   when the numbers are equal).  [not_gt c]: c is CLt or CEq; [not_lt c]: c is CGt or CEq. *)
+Theorem C06_compare_int_double_monotone : forall t s b n (f : binary_float 53 1024),
+  int_ty t = Some (s, b) -> in_range s b n = true -> is_finite f = true ->
+  ((IZR n < B2R f)%R -> not_gt (compare gen_cfg t TDouble (VInt n) (VF64 f)) /\ not_lt (compare gen_cfg TDouble t (VF64 f) (VInt n))) /\
+  ((B2R f < IZR n)%R -> not_lt (compare gen_cfg t TDouble (VInt n) (VF64 f)) /\ not_gt (compare gen_cfg TDouble t (VF64 f) (VInt n))) /\
+  (IZR n = B2R f -> compare gen_cfg t TDouble (VInt n) (VF64 f) = CEq /\ compare gen_cfg TDouble t (VF64 f) (VInt n) = CEq).
+Proof. exact compare_int_double_monotone. Qed.
+Print Assumptions C06_compare_int_double_monotone.
+
+Theorem C06_compare_int_float_monotone : forall t s b n (f : binary_float 24 128),
+  int_ty t = Some (s, b) -> in_range s b n = true -> is_finite f = true ->
+  ((IZR n < B2R f)%R -> not_gt (compare gen_cfg t TFloat (VInt n) (VF32 f)) /\ not_lt (compare gen_cfg TFloat t (VF32 f) (VInt n))) /\
+  ((B2R f < IZR n)%R -> not_lt (compare gen_cfg t TFloat (VInt n) (VF32 f)) /\ not_gt (compare gen_cfg TFloat t (VF32 f) (VInt n))) /\
+  (IZR n = B2R f -> compare gen_cfg t TFloat (VInt n) (VF32 f) = CEq /\ compare gen_cfg TFloat t (VF32 f) (VInt n) = CEq).
+Proof. exact compare_int_float_monotone. Qed.
+Print Assumptions C06_compare_int_float_monotone.
+Example C06_compare_int_float_ex :
+  compare gen_cfg TInt32 TDouble (VInt 2) (VF64 (f64_of_bits 4609884578576439706)) = CGt /\
+  compare gen_cfg TInt64 TFloat (VInt 16777217) (VF32 (f32_of_bits 1266679808)) = CEq.
+Proof. split; vm_compute; reflexivity. Qed.
+
 (* The oracle of comparison histories holds of the model on every history of integer comparisons.
    PARTIAL: the full statement is
      forall l, Forall item_ok l -> check_items l (run_cmp_with gen_cfg l) = true
    (item_ok: any two of the ten numeric types).  Missing: items with a Float / Double operand, where the
-   oracle allows an order to collapse to "equal" under round-to-nearest; its proof needs the
-   monotonicity of f_of_Z / f32_to_f64 with respect to Bcompare.  Those items are compared with the
-   real code and checked by the oracle in the correspondence run only. *)
+   oracle allows an order to collapse to "equal" under round-to-nearest.  The model-level fact is proved
+   above (C06_compare_int_double_monotone / _float_monotone, on real numbers); what is missing is the
+   link between the oracle's bit-level view of a float (sign / mantissa / exponent as a dyadic) and
+   B2R for these items.  They are compared with the real code and checked by the oracle in the
+   correspondence run. *)
 Theorem C06_compare_oracle_partial : forall l,
   Forall int_item l -> check_items l (run_cmp_with gen_cfg l) = true.
 Proof. exact check_items_int. Qed.
